@@ -18,19 +18,21 @@
 (*                             and the read side drained                         *)
 EXTENDS Integers, Sequences, TLC, Json
 CONSTANTS MaxBody
-VARIABLES wcalled, wdone, sent, rtotal, rread, closed, sid, l
-tvars == <<wcalled, wdone, sent, rtotal, rread, closed, sid, l>>
+VARIABLES wcalled, wdone, sent, rtotal, rread, closed, sid, l,
+          postc     \* requests seen since Close() RETURNED (-1: not yet)
+tvars == <<wcalled, wdone, sent, rtotal, rread, closed, sid, l, postc>>
+MaxAfterClose == 64
 Trace == ndJsonDeserialize("trace.ndjson")
 Is(e) == l <= Len(Trace) /\ Trace[l].event = e
-Z == wcalled = 0 /\ wdone = 0 /\ sent = 0 /\ rtotal = 0 /\ rread = 0 /\ closed = FALSE /\ sid = ""
+Z == wcalled = 0 /\ wdone = 0 /\ sent = 0 /\ rtotal = 0 /\ rread = 0 /\ closed = FALSE /\ sid = "" /\ postc = -1
 TInit == Z /\ l = 1 /\ TLCSet(1, 0)
-TReset == Is("Reset") /\ l' = l + 1 /\ wcalled' = 0 /\ wdone' = 0 /\ sent' = 0 /\ rtotal' = 0 /\ rread' = 0 /\ closed' = FALSE /\ sid' = ""
-TWriteCall == Is("WriteCall") /\ l' = l + 1 /\ wcalled' = wcalled + Trace[l].n /\ UNCHANGED <<wdone, sent, rtotal, rread, closed, sid>>
+TReset == Is("Reset") /\ l' = l + 1 /\ wcalled' = 0 /\ wdone' = 0 /\ sent' = 0 /\ rtotal' = 0 /\ rread' = 0 /\ closed' = FALSE /\ sid' = "" /\ postc' = -1
+TWriteCall == Is("WriteCall") /\ l' = l + 1 /\ wcalled' = wcalled + Trace[l].n /\ UNCHANGED <<wdone, sent, rtotal, rread, closed, sid, postc>>
 \* before Close a Write accepts everything; after Close it fails
 TWriteRet == /\ Is("WriteRet") /\ l' = l + 1
              /\ IF Trace[l].err = "" THEN Trace[l].ret = Trace[l].n /\ wdone' = wdone + Trace[l].n
                 ELSE closed /\ wdone' = wdone
-             /\ UNCHANGED <<wcalled, sent, rtotal, rread, closed, sid>>
+             /\ UNCHANGED <<wcalled, sent, rtotal, rread, closed, sid, postc>>
 \* request bodies, in request order, are the written stream: next contiguous range, unaltered, <= 65536 bytes,
 \* one session id, one request in flight
 TReq == /\ Is("Req") /\ l' = l + 1
@@ -38,22 +40,26 @@ TReq == /\ Is("Req") /\ l' = l + 1
              /\ e.ok /\ e.off = sent /\ sent + e.n <= wcalled /\ e.n <= MaxBody /\ e.conc = 1
              /\ (sid = "" \/ sid = e.sid) /\ sid' = e.sid
              /\ sent' = sent + e.n
+        \* "after Close ... polling stops": requests between Close and the worker's exit are allowed (the worker finishes its
+        \* round trip and may win the select against the close channel a few times: each iteration leaves with probability
+        \* >= 1/3) - but not MaxAfterClose of them (a worker that does not look at the close channel while data keeps coming)
+        /\ postc' = (IF postc >= 0 THEN postc + 1 ELSE postc) /\ postc < MaxAfterClose
         /\ UNCHANGED <<wcalled, wdone, rtotal, rread, closed>>
-TResp == Is("Resp") /\ l' = l + 1 /\ rtotal' = rtotal + Trace[l].n /\ UNCHANGED <<wcalled, wdone, sent, rread, closed, sid>>
+TResp == Is("Resp") /\ l' = l + 1 /\ rtotal' = rtotal + Trace[l].n /\ UNCHANGED <<wcalled, wdone, sent, rread, closed, sid, postc>>
 \* Read returns the response bodies in order; errors only after Close
 TReadRet == /\ Is("ReadRet") /\ l' = l + 1
             /\ LET e == Trace[l] IN
                  /\ (e.n > 0 => (e.ok /\ e.off = rread /\ rread + e.n <= rtotal))
                  /\ (e.err # "" => closed)
                  /\ rread' = rread + e.n
-            /\ UNCHANGED <<wcalled, wdone, sent, rtotal, closed, sid>>
+            /\ UNCHANGED <<wcalled, wdone, sent, rtotal, closed, sid, postc>>
 \* while the server answers 200 and nothing is closed: everything written has been posted, everything returned was read
 TQuiesce == /\ Is("Quiesce") /\ l' = l + 1 /\ ~closed
             /\ Trace[l].sent = sent /\ Trace[l].rread = rread
             /\ sent = wdone /\ rread = rtotal
-            /\ UNCHANGED <<wcalled, wdone, sent, rtotal, rread, closed, sid>>
+            /\ UNCHANGED <<wcalled, wdone, sent, rtotal, rread, closed, sid, postc>>
 \* a Write / Read racing with Close may already fail once Close has been CALLED
-TCloseCall == Is("CloseCall") /\ l' = l + 1 /\ closed' = TRUE /\ UNCHANGED <<wcalled, wdone, sent, rtotal, rread, sid>>
+TCloseCall == Is("CloseCall") /\ l' = l + 1 /\ closed' = TRUE /\ UNCHANGED <<wcalled, wdone, sent, rtotal, rread, sid, postc>>
 \* fault scenarios (C10): the server drops the connection instead of answering; from then on calls may fail, and they
 \* must RETURN (the driver waits for every Write) - no panic, no wedge
 \* growth beyond the statement's premise ("while the server answers 200"): a request answered with another status does not
@@ -62,12 +68,12 @@ TCloseCall == Is("CloseCall") /\ l' = l + 1 /\ closed' = TRUE /\ UNCHANGED <<wca
 \* After MaxRetries (10) refusals in a row of one request the worker gives up and the connection closes itself: calls fail.
 TRefused == Is("Refused") /\ l' = l + 1 /\ sent' = sent - Trace[l].n /\ Trace[l].n <= sent
             /\ closed' = (closed \/ Trace[l].k >= 10)
-            /\ UNCHANGED <<wcalled, wdone, rtotal, rread, sid>>
-TServerCut == Is("ServerCut") /\ l' = l + 1 /\ closed' = TRUE /\ UNCHANGED <<wcalled, wdone, sent, rtotal, rread, sid>>
-TClose == Is("Close") /\ l' = l + 1 /\ closed /\ UNCHANGED <<wcalled, wdone, sent, rtotal, rread, closed, sid>>
+            /\ UNCHANGED <<wcalled, wdone, rtotal, rread, sid, postc>>
+TServerCut == Is("ServerCut") /\ l' = l + 1 /\ closed' = TRUE /\ UNCHANGED <<wcalled, wdone, sent, rtotal, rread, sid, postc>>
+TClose == Is("Close") /\ l' = l + 1 /\ closed /\ postc' = (IF postc < 0 THEN 0 ELSE postc) /\ UNCHANGED <<wcalled, wdone, sent, rtotal, rread, closed, sid>>
 \* after Close polling stops (the worker ends); Read fails once drained (the final ReadRet carries the error)
 TExited == Is("Exited") /\ l' = l + 1 /\ closed /\ Trace[l].b /\ Trace[l].read_failed /\ Trace[l].write_failed
-           /\ UNCHANGED <<wcalled, wdone, sent, rtotal, rread, closed, sid>>
+           /\ UNCHANGED <<wcalled, wdone, sent, rtotal, rread, closed, sid, postc>>
 TNext == TRefused \/ TServerCut \/ TCloseCall \/ TReset \/ TWriteCall \/ TWriteRet \/ TReq \/ TResp \/ TReadRet \/ TQuiesce \/ TClose \/ TExited
 TraceSpec == TInit /\ [][TNext]_tvars
 HW == TLCSet(1, IF l - 1 > TLCGet(1) THEN l - 1 ELSE TLCGet(1))
